@@ -21,7 +21,7 @@ from .check_c01 import find
 
 ETA = sp.Symbol("eta")
 
-OPS = ("inverse", "compose", "rplus", "lplus", "rminus", "lminus", "between", "act", "exp", "log")
+OPS = ("inverse", "compose", "rplus", "lplus", "rminus", "lminus", "between", "act", "exp", "log", "t.rplus", "t.lplus", "t.plus")
 
 
 def analyse(rep, prop, v, ops, order=2, margin=3):
@@ -199,6 +199,15 @@ def analyse(rep, prop, v, ops, order=2, margin=3):
                 r0 = call(f_act, X, [pv, Jav, Jbv], "act(J,J)")
                 check(op, "X", Ja, vdiff(call(f_act, Xd, [pv, None, None], op), r0), ds, f_act)
                 check(op, "p", Jb, vdiff(call(f_act, X, [pvd, None, None], op), r0), qs, f_act)
+            elif op in ("t.rplus", "t.lplus", "t.plus"):
+                # tangent-side spellings; documented (in-class) positions: first the Jacobian w.r.t. the tangent, then w.r.t. m
+                short = op[2:]
+                f = fn(TB, short, own_t, lambda g: g["params"] and gcls.split("::")[-1] + "<" in str(g["params"][0].get("cty", "")) and "Tangent" not in str(g["params"][0].get("cty", "")))
+                Jt_, Jtv = Jout()
+                Jm_, Jmv = Jout()
+                r0 = call(f, ty, [X, Jtv, Jmv], op + "(J,J)")
+                check(op, "t", Jt_, gdiff(call(f, tyd, [X, None, None], op), r0), ds, f)
+                check(op, "m", Jm_, gdiff(call(f, ty, [Xd, None, None], op), r0), ds, f)
             elif op == "exp":
                 Jm, Jv = Jout()
                 r0 = call(f_exp, tx, [Jv], "exp(J)")
@@ -212,7 +221,7 @@ def analyse(rep, prop, v, ops, order=2, margin=3):
     return n_obl
 
 
-QUICK = [(v, op, 2, 6) for v in ("SO2", "SE2") for op in OPS] + \
+QUICK = [(v, op, 2, 7) for v in ("SO2", "SE2") for op in OPS] + \
         [("SO3", op, 2, 3) for op in ("inverse", "compose", "between", "act")] + [("SO3", op, 2, 6) for op in ("exp", "log", "rminus")]
 THOROUGH_EXTRA = [("SO3", "rplus", 2, 7), ("SO3", "lplus", 2, 7), ("SO3", "lminus", 2, 6),
                   ("SE3", "inverse", 2, 3), ("SE3", "between", 2, 3), ("SE3", "act", 2, 3), ("SE3", "exp", 2, 7)]
